@@ -7,7 +7,7 @@
 - props modules implement: PROP, cases(tier, seed), check_case(sess, case) -> number of public calls, nontrivial(case), install(sess),
   SCOPE (dict tier -> text), RULE, ASSUMPTIONS, REQUIRED_CONTRACTS; optional extra_cases(tier, seed) (size-boundary cases), random_case(rnd, tier)
 """
-import os, sys, json, time, hashlib, importlib, collections, multiprocessing as mp, traceback, random
+import os, sys, json, time, hashlib, importlib, collections, multiprocessing as mp, traceback, random, re
 
 ROOT = os.path.dirname(os.path.dirname(os.path.abspath(__file__)))
 REPO = os.environ.get("VERIF_REPO", "/repo")
@@ -218,6 +218,7 @@ def matches(entry, f):
     m = entry["match"]
     for k in ("kind", "function", "clause"):
         if k in m and not str(f.get(k, "")).startswith(m[k]): return False
+        if k + "_re" in m and not re.search(m[k + "_re"], str(f.get(k, ""))): return False
     return _predicate(m.get("case_predicate"), f["case"])
 
 
